@@ -1,7 +1,7 @@
 (* C14 — graph conversion mirrors the document and converts back to its unified form.
    Statements only; proofs in theories/GraphProofs.v. *)
 From Coq Require Import String List Arith.
-From Prov Require Import Str Sexp Tables Nsm Values Record World Derive Graph GraphProofs WorldProofs.
+From Prov Require Import Str Sexp Tables Nsm Values Record World Derive Graph GraphProofs WorldProofs IdemProofs ReaddProofs GraphBackProofs.
 Import ListNotations.
 Open Scope string_scope.
 
@@ -34,6 +34,20 @@ Proof. exact add_relations_keeps_nodes. Qed.
 Theorem C14_back_wellformed : forall ft g nd, graph_to_prov ft g = OK nd -> DCoh nd /\ dbundles nd = [].
 Proof. exact graph_to_prov_coh. Qed.
 Print Assumptions C14_back_wellformed.
+
+(* document -> graph -> document, for every document on which both conversions succeed: the result is
+   bundle-free and holds, in order, the images (same kind, identifier URI, attribute values) of the records of
+   the declared nodes followed by the relations on the edges; all of these are records of the unified
+   document; and the relations handed back are exactly those on the edges of the graph — none dropped, none
+   invented.  (Inferred nodes are not written back; multiplicity of parallel edges: decided per run.) *)
+Theorem C14_roundtrip : forall ft dd g nd,
+  prov_to_graph ft dd = OK g -> graph_to_prov ft g = OK nd ->
+  exists u, doc_unified ft dd = OK u /\ g = graph_of_unified u /\ dbundles nd = [] /\
+    Forall2 (image_of ft) (back_records g) (brecs (dmain nd)) /\
+    (forall r, In r (back_records g) -> In r (brecs (dmain u))) /\
+    (forall e, In e (edges_in_order g) <-> In e (gedges g)).
+Proof. exact graph_roundtrip. Qed.
+Print Assumptions C14_roundtrip.
 
 (* the inference table is the PROV-DM one (generated from /repo, checked here) *)
 Example C14_inference_table :
